@@ -675,6 +675,8 @@ func checkC16(c *ctx) {
 		}
 		for fn, out := range s.files {
 			if _, err := os.Stat(filepath.Join(pdir, out)); err != nil {
+				// every input file of this corpus contains a directive
+				c.R.Add(vc.Violation{Property: "C16", Case: "footprint/" + out, Why: "cff exited 0 for the selected input " + filepath.Join(s.p.Rel, fn) + " but did not write its documented output path " + out, Obs: map[string]string{"clause": "footprint"}})
 				continue
 			}
 			evals++
